@@ -169,6 +169,30 @@ def vcg_checks(b):
                 m_ri = lin.metric(e_r)["i"].asnumpy()[0]
                 if not (np.isclose(m_rr, i) and np.isclose(m_ii, 0.5 / i ** 2) and abs(m_ri) < 1e-14):
                     out.append(("vcg-fisher", "full Fisher metric (%r, %r, %r) != (i, 1/(2 i^2), 0)" % (m_rr, m_ii, m_ri)))
+    # one of the two keys held constant (simplify_for_constant_input): the remaining energy must keep value, gradient and the Fisher metric
+    # of the remaining parameter (1/(2 i^2) for the inverse variance of a real residual, i for the residual)
+    for dt, cfac in ((np.float64, 0.5), (np.complex128, 1.0)):
+        op = ift.VariableCovarianceGaussianEnergy(dom, "r", "i", dt, use_full_fisher=True)
+        for r, i in ((0.5, 2.0), (-1.0, 0.25)):
+            n += 1
+            rv = np.array([r], dtype=dt)
+            for const, free, fisher in (("r", "i", cfac / i ** 2), ("i", "r", i)):
+                cval = ift.MultiField.from_dict({const: ift.makeField(dom, rv if const == "r" else np.array([i]))})
+                try:
+                    _, sop = op.simplify_for_constant_input(cval)
+                    x = ift.MultiField.from_dict({free: ift.makeField(dom, np.array([i]) if free == "i" else rv)})
+                    lin = sop(ift.Linearization.make_var(x, want_metric=True))
+                    full = op(ift.Linearization.make_var(ift.MultiField.union([x, cval]), want_metric=True))
+                    m = lin.metric(ift.MultiField.from_dict({free: ift.makeField(dom, np.array([1.], dtype=dt if free == "r" else np.float64))}))[free].asnumpy()[0]
+                    if not np.isclose(float(lin.val.asnumpy()), float(full.val.asnumpy()), rtol=1e-12):
+                        out.append(("vcg-const-value", "%s constant (%s): value %r != %r" % (const, dt.__name__, float(lin.val.asnumpy()), float(full.val.asnumpy()))))
+                    if not np.isclose(lin.gradient[free].asnumpy()[0], full.gradient[free].asnumpy()[0], rtol=1e-12):
+                        out.append(("vcg-const-gradient", "%s constant (%s): gradient differs from the gradient of the full energy" % (const, dt.__name__)))
+                    if not np.isclose(m, fisher, rtol=1e-12):
+                        out.append(("vcg-const-fisher", "%s constant (%s residual) at r=%s, i=%s: metric of the remaining key %s is %r, its Fisher information is %r" % (
+                            const, dt.__name__, r, i, free, m, fisher)))
+                except Exception as e:
+                    out.append(("vcg-const-raises", "%s constant (%s): %s: %s" % (const, dt.__name__, type(e).__name__, str(e)[:120])))
     # the transformation is a local approximation: E_data[Jt^H Jt] = Fisher, by substituting E r = 0, E r^2 = 1/i into the quadratic in r
     op = ift.VariableCovarianceGaussianEnergy(dom, "r", "i", np.float64, use_full_fisher=True)
     f = op.get_transformation()[1]
@@ -189,6 +213,40 @@ def vcg_checks(b):
     n += 1
     if not np.allclose(expect, np.diag([i0, 0.5 / i0 ** 2]), rtol=1e-9, atol=1e-11):
         out.append(("vcg-expectation", "E_data[Jt^H Jt] = %s differs from the Fisher metric diag(i, 1/(2 i^2)) = %s" % (np.round(expect, 6).tolist(), [i0, 0.5 / i0 ** 2])))
+    return out, n
+
+
+def complex_gauss_checks(b):
+    """complex Gaussian energies behind complex linear models: value 1/2 r^H N^-1 r, metric = A^H N^-1 A (Hermitian, positive)"""
+    ift = b.ift
+    out = []
+    n = 0
+    dom = b.dom
+    d = ift.makeField(dom, np.array([1. + 1j, -2j]))
+    nv = np.array([4., .25])
+    for icname, icov in (("diagonal", ift.makeOp(ift.makeField(dom, nv), sampling_dtype=np.complex128)),
+                         ("sandwich with a complex bun", ift.SandwichOperator.make(ift.makeOp(ift.makeField(dom, np.array([2j, .5 + 0j]))), sampling_dtype=np.complex128)),
+                         ("sandwich with a complex scaling bun", ift.SandwichOperator.make(ift.ScalingOperator(dom, 1. + 1j), ift.makeOp(ift.makeField(dom, nv / 2.)), sampling_dtype=np.complex128))):
+        lh = ift.GaussianEnergy(data=d, inverse_covariance=icov)
+        for mname, model, A in (("identity", None, np.eye(2)),
+                                ("complex scaling", ift.ScalingOperator(dom, 2. + 1j), (2. + 1j) * np.eye(2)),
+                                ("imaginary scaling", ift.ScalingOperator(dom, 1j), 1j * np.eye(2)),
+                                ("complex matrix", ift.MatrixProductOperator(dom, np.array([[1., 2j], [1j, 1.]])), np.array([[1., 2j], [1j, 1.]]))):
+            n += 1
+            try:
+                op = lh if model is None else lh @ model
+                xv = np.array([.5 - 1j, 2. + .25j])
+                lin = op(ift.Linearization.make_var(ift.makeField(dom, xv), want_metric=True))
+                r = A @ xv - d.asnumpy()
+                exp = 0.5 * np.real(np.vdot(r, nv * r))
+                if not np.isclose(float(lin.val.asnumpy()), exp, rtol=1e-12):
+                    out.append(("complex-gauss-value", "%s covariance, %s model: value %r != 1/2 r^H N^-1 r = %r" % (icname, mname, float(lin.val.asnumpy()), exp)))
+                M = np.array([lin.metric(ift.makeField(dom, e)).asnumpy() for e in (np.array([1. + 0j, 0.]), np.array([0., 1. + 0j]))]).T
+                Mexp = A.conj().T @ np.diag(nv) @ A
+                if not np.allclose(M, Mexp, rtol=1e-12, atol=1e-13):
+                    out.append(("complex-gauss-metric", "%s covariance, %s model: metric %s, the pull-back A^H N^-1 A is %s" % (icname, mname, np.round(M, 6).tolist(), np.round(Mexp, 6).tolist())))
+            except Exception as e:
+                out.append(("complex-gauss-raises", "%s covariance, %s model: %s: %s" % (icname, mname, type(e).__name__, str(e)[:120])))
     return out, n
 
 
@@ -220,8 +278,12 @@ def run(ctx):
                     ctx.violation(dict(kind="value", energy=i1["kind"], comp=i1["comp"]), "%s/%s: E(%s) - E(%s) = %r, the negative log-probability gives %r" % (
                         i1["kind"], i1["comp"], [q(t) for t in i1["x"]], [q(t) for t in i0["x"]], v1 - v0, e1 - e0), replay=dict(instance=i1, other=i0))
         vv, nv = vcg_checks(b)
+        cv, nc = complex_gauss_checks(b)
+        nv += nc
     for kind, msg in vv:
         ctx.violation(dict(kind=kind, energy="vcgauss"), msg, replay=dict(what="vcg"))
+    for kind, msg in cv:
+        ctx.violation(dict(kind=kind, energy="gaussian-complex"), msg, replay=dict(what="complex-gauss"))
     for k in range(nv + nd):
         ctx.case(("extra", k))
     ctx.traces += len(insts)
@@ -237,6 +299,11 @@ def replay(ctx, doc):
     if "instance" in c:
         with quiet():
             viols, _ = check_instance(b, c["instance"], c.get("variant", 0))
+        for kind, msg in viols:
+            ctx.violation(doc.get("key", dict(kind=kind)), msg, replay=c)
+    elif c.get("what") in ("vcg", "complex-gauss"):
+        with quiet():
+            viols, _ = vcg_checks(b) if c["what"] == "vcg" else complex_gauss_checks(b)
         for kind, msg in viols:
             ctx.violation(doc.get("key", dict(kind=kind)), msg, replay=c)
     ctx.case("replay")
